@@ -208,4 +208,70 @@ theorem shortestGo_mem (iv : Interval) (fuel : Nat) (E0 : Int) (D : Nat) (E : In
       exact closestIn_mem iv E0 _ _ hle d hd
     · exact ih _ h
 
+theorem scale_cmp {X Y A B S c : Nat} (hc : 0 < c) (hS : 0 < S) (hX : X * c = A * S)
+    (hY : Y * c = B * S) : (A ≤ B → X ≤ Y) ∧ (A < B → X < Y) := by
+  constructor
+  · intro h
+    apply Nat.le_of_mul_le_mul_right _ hc
+    rw [hX, hY]; exact Nat.mul_le_mul_right S h
+  · intro h
+    apply Nat.lt_of_mul_lt_mul_right (a := c)
+    rw [hX, hY]; exact Nat.mul_lt_mul_of_pos_right h hS
+
+/-- every output of `shortest` lies in the rounding cell of `bits`, hence rounds back to `bits` -/
+theorem shortest_roundtrips' {f : Fmt} (hf : WF f) {b : Nat} (hb0 : 0 < b) (hb : b < f.infBits)
+    {D : Nat} {E : Int} (h : (D, E) ∈ shortest f b) :
+    roundNE f (decFrac D E).1 (decFrac D E).2 = b := by
+  obtain ⟨k, q, hbk, h1, h2, hiv⟩ := interval_eq hf hb
+  unfold shortest at h
+  obtain ⟨m1, m2⟩ := shortestGo_mem _ _ _ _ _ h
+  have hPQ := scalePQ_eq (interval f b).e2 E
+  obtain ⟨an_pos, ad_pos⟩ := binFrac_pos (interval f b).e2
+  obtain ⟨tn_pos, td_pos⟩ := tenFrac_pos E
+  obtain ⟨hD1, clo, chi, cstrict⟩ := candRange_spec _ E _ _ hPQ (Nat.mul_pos tn_pos ad_pos) D m1 m2
+  rw [hiv] at clo chi cstrict an_pos ad_pos
+  simp only [] at clo chi cstrict an_pos ad_pos
+  have hsc := binFrac_scale k (L f)
+  obtain ⟨mid_hi, mid_lo⟩ := cell_midpoints (f := f) k q h1 h2 (by rw [← hbk]; omega)
+  rw [← hbk] at mid_hi mid_lo
+  obtain ⟨t, ht, _⟩ := T_even hf
+  have hpar : b % 2 = q % 2 := by rw [hbk, ht, Nat.mul_left_comm]; omega
+  have hincl : b % 2 ≠ 0 → decide (q % 2 = 0) = false := by
+    intro hne; rw [hpar] at hne; simpa using hne
+  generalize (binFrac ((k : Int) - (L f : Int) - 2)).1 = an at *
+  generalize (binFrac ((k : Int) - (L f : Int) - 2)).2 = ad at *
+  rw [decFrac_eq]
+  dsimp only
+  generalize (tenFrac E).1 = tn at *
+  generalize (tenFrac E).2 = td at *
+  generalize (if q = 2 ^ (f.p - 1) ∧ 0 < k then 4 * q - 1 else 4 * q - 2) = lo at *
+  have hS : 0 < 2 ^ (L f) * 4 := by positivity
+  have hc : 0 < 2 * ad := by omega
+  -- lower: X = td * Ilo, Y = 2 * (D*tn*2^L); A = lo*(an*td), B = D*(tn*ad)
+  have eXlo : td * (ival f (b - 1) + ival f b) * (2 * ad) = lo * (an * td) * (2 ^ (L f) * 4) := by
+    calc td * (ival f (b - 1) + ival f b) * (2 * ad)
+        = td * ((ival f (b - 1) + ival f b) * 2) * ad := by ring
+      _ = td * lo * (ad * 2 ^ k) := by rw [mid_lo]; ring
+      _ = td * lo * (an * 2 ^ (L f) * 4) := by rw [hsc]
+      _ = lo * (an * td) * (2 ^ (L f) * 4) := by ring
+  have eXhi : td * (ival f b + ival f (b + 1)) * (2 * ad) = (4 * q + 2) * (an * td) * (2 ^ (L f) * 4) := by
+    calc td * (ival f b + ival f (b + 1)) * (2 * ad)
+        = td * ((ival f b + ival f (b + 1)) * 2) * ad := by ring
+      _ = td * (4 * q + 2) * (ad * 2 ^ k) := by rw [mid_hi]; ring
+      _ = td * (4 * q + 2) * (an * 2 ^ (L f) * 4) := by rw [hsc]
+      _ = (4 * q + 2) * (an * td) * (2 ^ (L f) * 4) := by ring
+  have eY : 2 * (D * tn * 2 ^ (L f)) * (2 * ad) = D * (tn * ad) * (2 ^ (L f) * 4) := by ring
+  obtain ⟨lo1, lo2⟩ := scale_cmp hc hS eXlo eY
+  obtain ⟨hi1, hi2⟩ := scale_cmp hc hS eY eXhi
+  apply roundNE_unique hf (Nat.ne_of_gt td_pos)
+  refine ⟨Nat.le_of_lt hb, fun _ => lo1 clo, ?_, fun _ => hi1 chi, ?_⟩
+  · intro _ heq
+    by_contra hne
+    have := lo2 (cstrict (hincl hne)).1
+    omega
+  · intro _ heq
+    by_contra hne
+    have := hi2 (cstrict (hincl hne)).2
+    omega
+
 end LexVerif.Proof.RoundNE
